@@ -609,11 +609,13 @@ func modelCorpus() []*MCase {
 			{K: "uptinfo", DB: 1, Pt: 0, COwner: 1, CStat: 3, Owner: 1, Status: 0}, {K: "nstatus", ID: 1, Status: 4, U1: 1}, {K: "nstatus", ID: 1, Status: 4, U1: 3},
 			{K: "ptver", DB: 1, Pt: 1}, {K: "ptver", DB: 1, Pt: 7}, {K: "ptver", DB: 2, Pt: 0}, {K: "takeover", Def: false}, {K: "nstatus", ID: 2, Status: 1, U1: 9},
 			{K: "csql", H: 1}, {K: "sqlstatus", ID: 3, Status: 1, U1: 2}, {K: "sqlstatus", ID: 3, Status: 2, U1: 1}, {K: "cmeta", H: 1, T: 5, U1: 7},
-			{K: "metastatus", ID: 4, Status: 1, U1: 2}, {K: "metastatus", ID: 9, Status: 1, U1: 2}, {K: "restore"}, {K: "cnode", H: 1, T: 1}, {K: "nstatus", ID: 1, Status: 1, U1: 5}}),
+			{K: "metastatus", ID: 4, Status: 1, U1: 2}, {K: "metastatus", ID: 9, Status: 1, U1: 2}, {K: "restore"}, {K: "cnode", H: 1, T: 1}, {K: "nstatus", ID: 1, Status: 1, U1: 5},
+			{K: "takeover", Def: true}, {K: "nstatus", ID: 1, Status: 1, U1: 5}, {K: "cnode", H: 1, T: 1}, {K: "nstatus", ID: 1, Status: 1, U1: 6}, {K: "restore"}}),
 		// tiers, and an expansion on a node join: the new shard takes the tier of the shard before it
 		runModelCase("m-tiers-expand", Conf{PtPer: 1, Expand: true}, 0, nil, []Cmd{{K: "cnode", H: 1, T: 1}, {K: "cdb", DB: 1, HasRP: true, RP: 1, D: i64(0), SGD: i64(Hour)},
 			{K: "cmst", DB: 1, RP: 1, M: 1}, {K: "csg", DB: 1, RP: 1, TS: Base}, {K: "shtier", DB: 1, RP: 1, ID: 1, U1: 3}, {K: "shtier", DB: 1, RP: 1, ID: 9, U1: 3},
-			{K: "ixtier", DB: 1, RP: 1, ID: 1, U1: 2}, {K: "cnode", H: 2, T: 2}, {K: "csg", DB: 1, RP: 1, TS: Base + 3*Hour}, {K: "restore"}, {K: "cnode", H: 3, T: 3},
+			{K: "ixtier", DB: 1, RP: 1, ID: 1, U1: 2}, {K: "cnode", H: 2, T: 2}, {K: "shtier", DB: 1, RP: 1, ID: 2, U1: 4}, {K: "csg", DB: 1, RP: 1, TS: Base + 3*Hour},
+			{K: "restore"}, {K: "cnode", H: 3, T: 3},
 			{K: "expand"}, {K: "shtier", DB: 1, RP: 0, ID: 2, U1: 4}}),
 		// streams: re-creation takes a new id, a different definition is refused, the Mark commands are refused while a stream refers
 		runModelCase("m-streams", cf, 0, nil, []Cmd{{K: "cnode", H: 1, T: 1}, {K: "cdb", DB: 1, HasRP: true, RP: 1, D: i64(0), SGD: i64(Hour)},
